@@ -1,3 +1,5 @@
+import G3D.Proofs.KernelsTie
+import G3D.Proofs.KernelsTieReal
 import G3D.Props.C05
 #print axioms G3D.Props.C05.point_in_line
 #print axioms G3D.Props.C05.point_in_plane
@@ -21,3 +23,12 @@ import G3D.Props.C05
 #print axioms G3D.Props.C05.polyhedron_judge_sound
 #print axioms G3D.Props.C05.segment_in_polyhedron
 #print axioms G3D.Props.C05.polygon_in_polyhedron
+#print axioms G3D.KernelsTie.planeContains_iff
+#print axioms G3D.KernelsTie.planeContains_shape
+#print axioms G3D.KernelsTie.planeContainsLine_iff
+#print axioms G3D.KernelsTie.halfLineContains_iff
+#print axioms G3D.KernelsTie.halfLineContains_shape
+#print axioms G3D.KernelsTieReal.lineContains_cast
+#print axioms G3D.KernelsTieReal.segContains_iff
+#print axioms G3D.KernelsTieReal.segContains_paths
+#print axioms G3D.KernelsTieReal.planeContainsN_cast
